@@ -32,6 +32,13 @@ def mutants():
             m = re.match(r"(C\d+) (\S+\.diff)\s+suite=(\S+)\s+check=(\S+)\s+([\d.]+)s\s*(.*)", l)
             if m:
                 res[(m.group(1), m.group(2))] = (m.group(3), m.group(4), m.group(5), m.group(6))
+    suite = {}
+    sp = os.path.join(ROOT, "mutants", "SUITE.txt")
+    if os.path.exists(sp):
+        for l in open(sp):
+            a = l.split()
+            if len(a) == 3:
+                suite[(a[0], a[1])] = a[2]
     rows = ["| Check | Mutant | Suite | Quick check | s | Reported as |", "|---|---|---|---|---|---|"]
     for d in sorted(glob.glob(os.path.join(ROOT, "mutants", "c*"))):
         prop = os.path.basename(d).upper()
@@ -39,7 +46,7 @@ def mutants():
             if f.endswith(".diff"):
                 r = res.get((prop, f), ("?", "not run", "", ""))
                 sigs = sorted(set(re.findall(r"\[([^\]]*)\]", r[3])))
-                rows.append("| %s | %s | %s | %s | %s | %s |" % (prop, f[:-5], r[0], r[1], r[2], esc("; ".join(sigs))[:160]))
+                rows.append("| %s | %s | %s | %s | %s | %s |" % (prop, f[:-5], suite.get((prop, f), r[0]), r[1], r[2], esc("; ".join(sigs))[:160]))
     return "\n".join(rows)
 
 def seeded():
